@@ -3,7 +3,8 @@
 #   demo passes on the pristine tree, patch applies, baseline suite still passes, demo fails with the patch.
 d=$(readlink -f $1)
 WT=$(mktemp -d /var/tmp/wt.XXXXXX); rmdir $WT
-git -C /repo worktree add -q --detach $WT HEAD || exit 2
+BASE=$(/venv/bin/python -c "import json,sys; print(json.load(open(sys.argv[1]+'/meta.json')).get('base_commit','HEAD'))" $d)
+git -C /repo worktree add -q --detach $WT $BASE || exit 2
 run_demo() { (cd $WT && PYTHONPATH=$WT TQDM_DISABLE=1 timeout 600 /venv/bin/python $d/demo.py >/dev/null 2>&1; echo $?); }
 clean=$(run_demo)
 git -C $WT apply $d/patch.diff || { echo "patch does not apply"; git -C /repo worktree remove --force $WT; exit 2; }
